@@ -55,12 +55,25 @@ def requests(ctx):
                 lines.append(b"b%s #" % format(t % 256, "08b").encode())
         open(p, "wb").write(hdr + b"\r\n".join(lines) + b"\r\n")
         rq.append(f"entryfile {p}")
+    # a last time step that runs over several production chunks (workers that reach the end of the file far behind their stop
+    # position without meeting a timestamp), with and without a final line break
+    for k in range(2 if quick else 6):
+        p = os.path.join(gen_dir, f"longstep{k}.vcd")
+        hdr = b"$timescale 1ns $end\n$scope module top $end\n$var wire 1 ! a $end\n$var wire 8 # b $end\n$upscope $end\n$enddefinitions $end\n"
+        lines = [b"#0", b"0!", b"b00000000 #"]
+        for t in range(1, 1500):
+            lines += [b"#%d" % t, b"%d!" % (t & 1)]
+        lines.append(b"#2000")
+        for j in range(3000 + 500 * k):
+            lines.append(b"b%s #" % format(j % 256, "08b").encode())
+        open(p, "wb").write(hdr + b"\n".join(lines) + (b"\n" if k % 2 == 0 else b""))
+        rq.append(f"entryfile {p}")
     return rq
 
 
 def run(ctx):
     res = ctx.res
-    ok = ctx.build()
+    ok = ctx.build(checked=True)
     if ok:
         tables.regenerate(ctx.wvh)
     proof = core.prove("C14")
@@ -102,6 +115,14 @@ def run(ctx):
             model2.append(m)
         core.compare_streams(res, rq, impl2, model2, is_nontrivial=lambda r, i: i == "same:ok",
                              label="body-driver modes ~ entry points", sample_every=max(1, len(rq) // 8))
+        # the multi-chunk files once more in the profile with debug assertions and overflow checks (progress arithmetic, chunk arithmetic)
+        if ctx.wvh_checked is not None:
+            sub = [(r, m) for r, m in zip(rq, model2) if "/crlf" in r or "/longstep" in r]
+            if sub:
+                impl_c = ctx.impl([r for r, _ in sub], tag="impl_checked", binary=ctx.wvh_checked)
+                impl_c = [("DIFF" if i.startswith("DIFF:") else i) for i in impl_c]
+                core.compare_streams(res, [r for r, _ in sub], impl_c, [m for _, m in sub], is_nontrivial=lambda r, i: i == "same:ok",
+                                     label="entry points, multi-chunk files (debug-assertion profile)", sample_every=max(1, len(sub) // 2))
         res.count("generated_vcd", sum(1 for r in rq if r.startswith("entryvcd")))
         res.count("corpus_files", sum(1 for r in rq if r.startswith("entryfile")))
     return core.finish(res, proof, rule=RULE)
